@@ -45,6 +45,8 @@
 (*                         line seen (the design)                          *)
 (*          = "asread"     lexer.errorf sets no line, the zero item has    *)
 (*                         line 0 (negative config)                        *)
+(*          = "eolnext"    the line counter is advanced before the         *)
+(*                         end-of-line item is sent (negative config)      *)
 (*                                                                         *)
 (* Checked by TLC over ALL token lists up to MaxTok, a lexical error or    *)
 (* not, a parse error after any item and at any rune, all interleavings:   *)
@@ -112,10 +114,11 @@ NLines == LineOf(N + 1)
 
 \* item number i of the lexer, i \in 1..N+1
 LexItem(i) ==
-  IF i <= N THEN [k |-> toks[i].k, n |-> toks[i].n, line |-> LineOf(i), idx |-> i]
-  ELSE IF lexerr THEN [k |-> "ERR", n |-> 0, line |-> (IF LineMode = "tracked" THEN LineOf(i) ELSE 0), idx |-> i]
+  IF i <= N THEN [k |-> toks[i].k, n |-> toks[i].n, idx |-> i,
+                  line |-> LineOf(i) + (IF LineMode = "eolnext" /\ toks[i].k = "nl" THEN 1 ELSE 0)]
+  ELSE IF lexerr THEN [k |-> "ERR", n |-> 0, line |-> (IF LineMode = "asread" THEN 0 ELSE LineOf(i)), idx |-> i]
   ELSE [k |-> "EOF", n |-> 0, line |-> LineOf(i), idx |-> i]
-ZeroItem == [k |-> "ZERO", n |-> 0, line |-> (IF LineMode = "tracked" THEN lastLine ELSE 0), idx |-> 0]
+ZeroItem == [k |-> "ZERO", n |-> 0, line |-> (IF LineMode = "asread" THEN 0 ELSE lastLine), idx |-> 0]
 
 NoDec == [pc |-> "none", n |-> 0, sent |-> 0, buf |-> 0, cap |-> 0]
 
@@ -127,7 +130,7 @@ Init ==
   /\ lastLine = 0 /\ errLine = 0
   /\ dec = [d \in 1..MaxTok |-> NoDec] /\ curDec = 0
   /\ result = [kind |-> "none", line |-> 0]
-  /\ fat = [at |-> 0, str |-> 0, rune |-> 0]
+  /\ fat = [at |-> 0, str |-> 0, rune |-> 0, peek |-> 0]
 
 ---------------------------------------------------------------------------
 (* Parse, parser.go:39-62.  Preconditions first (a font without a usable    *)
@@ -196,7 +199,7 @@ Consume ==
   /\ cur' = None
   /\ IF cur.k \in {"EOF", "ERR", "ZERO"}
        THEN /\ ppc' = "fatal"                       \* required(...) got it: fatal follows
-            /\ fat' = [at |-> li - 1, str |-> 0, rune |-> 0]
+            /\ fat' = [at |-> li - 1, str |-> 0, rune |-> 0, peek |-> 0]
        ELSE ppc' = "idle" /\ UNCHANGED fat
   /\ UNCHANGED <<toks, lexerr, pre, scn, lpc, li, backlog, held, npeek, lastLine, errLine, dec, curDec, result>>
 
@@ -235,7 +238,7 @@ StartDecode ==
 \* (p.fatal inside the loop body), or the channel is closed and the loop ends
 AfterRune(j) ==
   \/ ppc' = "runes" /\ UNCHANGED <<fat, curDec>>
-  \/ ppc' = "fatal" /\ fat' = [at |-> li - 1, str |-> curDec, rune |-> j] /\ curDec' = 0
+  \/ ppc' = "fatal" /\ fat' = [at |-> li - 1, str |-> curDec, rune |-> j, peek |-> 0] /\ curDec' = 0
 RuneRecv ==
   /\ ppc = "runes"
   /\ LET d == curDec IN
@@ -254,7 +257,7 @@ RuneRecv ==
 FatalHere ==
   /\ ppc = "idle" /\ held = None
   /\ li > 1                                          \* something has been read
-  /\ ppc' = "fatal" /\ fat' = [at |-> li - 1, str |-> 0, rune |-> 0]
+  /\ ppc' = "fatal" /\ fat' = [at |-> li - 1, str |-> 0, rune |-> 0, peek |-> 0]
   /\ UNCHANGED <<toks, lexerr, pre, scn, lpc, li, backlog, cur, held, npeek, lastLine, errLine, dec, curDec, result>>
 
 \* fatal(): panic(&parseError{next: p.peek(), ...}), parser.go:1492; recovered in Parse
@@ -262,13 +265,15 @@ FatalPeek ==
   /\ ppc = "fatal"
   /\ IF backlog # <<>>
        THEN /\ errLine' = backlog[Len(backlog)].line
+            /\ fat' = [fat EXCEPT !.peek = backlog[Len(backlog)].idx]
             /\ UNCHANGED <<li, lpc, backlog, lastLine>>
        ELSE /\ CanRecv
             /\ errLine' = Recvd.line /\ RecvEffect
+            /\ fat' = [fat EXCEPT !.peek = Recvd.idx]
             /\ backlog' = Append(backlog, Recvd)
             /\ lastLine' = IF Recvd.line > 0 THEN Recvd.line ELSE lastLine
   /\ ppc' = "drain"
-  /\ UNCHANGED <<toks, lexerr, pre, scn, cur, held, npeek, dec, curDec, result, fat>>
+  /\ UNCHANGED <<toks, lexerr, pre, scn, cur, held, npeek, dec, curDec, result>>
 
 \* for range tokens { }, parser.go:65
 Drain ==
@@ -329,6 +334,13 @@ BufferSuffices == \A d \in 1..MaxTok : dec[d].pc # "none" => dec[d].cap >= dec[d
 \* the result, as soon as there is one
 ResultOK == ppc = "exit" => \/ result.kind = "ok" \/ result.kind = "early"
                             \/ result.kind = "error" /\ result.line >= 1 /\ result.line <= NLines
+
+\* THE LAW OF THE ERROR LINE (see DslContract / DslLang section 4): an error carries the line of the item at
+\* which it is detected -- the first item the parser has not accepted, fat.peek; an end-of-line item belongs
+\* to the line it ends (LineOf counts the line breaks BEFORE an item); reading on after the end of the input
+\* (peek = 0) reports the line of the end of the input
+LineLaw == (ppc = "exit" /\ result.kind = "error") =>
+             result.line = LineOf(IF fat.peek = 0 THEN N + 1 ELSE fat.peek)
 
 TypeOK ==
   /\ lpc \in {"none", "send", "close", "exit"} /\ li \in 1..(N + 2) /\ scn \in 0..1
